@@ -559,7 +559,8 @@ def jobs(tier):
     for j, c in enumerate(comps[::6]):
         out.append(('init_hier', 'case_init_hier',
                     dict(units=c, n_ids=2, fix=j), F))
-    for k, c in enumerate(c02.extra_quick()):
+    for k, c in enumerate(c for c in c02.extra_quick()
+                          if not any(u.get('sel') for u in c)):
         out.append(('init_hier', 'case_init_hier', dict(units=c, n_ids=2),
                     F))
         out.append(('init_filter', 'case_init_filter', dict(
